@@ -251,9 +251,15 @@ func RunProperty(o RunOpts) int {
 		for _, e := range hr.Inconclusive {
 			inconclusive = append(inconclusive, n+": "+e)
 		}
-		// vacuity
+		// vacuity (not judged for a harness whose exploration was cut short by the time box)
 		completed := hr.PathEnds["ok"]
-		if len(ag.errs) == 0 && completed == 0 && len(hr.Violations) == 0 && len(hr.KnownHits) == 0 {
+		cut := false
+		for _, e := range append(append([]string(nil), ag.errs...), hr.Inconclusive...) {
+			if strings.Contains(e, "(exploration incomplete)") || strings.Contains(e, "run deadline reached before this exploration job started") {
+				cut = true
+			}
+		}
+		if !cut && len(ag.errs) == 0 && completed == 0 && len(hr.Violations) == 0 && len(hr.KnownHits) == 0 {
 			inconclusive = append(inconclusive, n+": vacuous: no path reaches the end of the harness")
 		}
 		if completed > 0 && !hr.TwinSat {
